@@ -51,23 +51,3 @@ func zzC02_header() {
 	vAssert(d.EndToEndID == zzBE32(raw[16:20]), "e2e at 16")
 	vReach("C02_header")
 }
-
-func zzBE32(b []byte) uint32 {
-	return uint32(b[0])<<24 | uint32(b[1])<<16 | uint32(b[2])<<8 | uint32(b[3])
-}
-
-func zzRefHeader(ver uint8, l uint32, fl uint8, cmd, app, hbh, e2e uint32) [20]byte {
-	var r [20]byte
-	r[0] = ver
-	r[1], r[2], r[3] = byte(l>>16), byte(l>>8), byte(l)
-	r[4] = fl
-	r[5], r[6], r[7] = byte(cmd>>16), byte(cmd>>8), byte(cmd)
-	for i, v := range [4]uint32{app, hbh, e2e} {
-		_ = i
-		_ = v
-	}
-	r[8], r[9], r[10], r[11] = byte(app>>24), byte(app>>16), byte(app>>8), byte(app)
-	r[12], r[13], r[14], r[15] = byte(hbh>>24), byte(hbh>>16), byte(hbh>>8), byte(hbh)
-	r[16], r[17], r[18], r[19] = byte(e2e>>24), byte(e2e>>16), byte(e2e>>8), byte(e2e)
-	return r
-}
